@@ -325,6 +325,7 @@ class Schema(dict, metaclass=LogicalMeta):
             # the sentinel must never be stored
             return
 
+        before = (dict(dict.items(self)), dict(self.__dict__)) if field.dependants else None
         if field.property:
             if callable(setter):
                 # @property.fset
@@ -343,7 +344,15 @@ class Schema(dict, metaclass=LogicalMeta):
 
         if field.dependants:
             # need to update the dependant properties
-            self.__update_dependants__(field, context=context)
+            try:
+                self.__update_dependants__(field, context=context)
+            except Exception:
+                # a dependant property rejects the new value: the assignment fails as a whole
+                dict.clear(self)
+                dict.update(self, before[0])
+                self.__dict__.clear()
+                self.__dict__.update(before[1])
+                raise
 
     def __update_dependants__(self, field: ParserField, context: RuntimeContext):
         # a dependant property may itself be a dependency of further properties: collect them all,
